@@ -293,3 +293,76 @@ def r17_d(ctx):
                         'non-string input (chunks, lines, files) is not joined into one string before categorising: the '
                         'result would depend on the chunking', line=fd.node.lineno))
     return rr
+
+
+def r17_f(ctx):
+    """no function lets a module-level mutable object escape into a result (returned, stored, passed to a
+    constructor or appended)"""
+    repo = ctx.repo
+    rr = RuleResult('R17.f', 'no module-level mutable object (list/dict/set or class instance) is returned, stored in a '
+                    'node or handed to a constructor by any function: every parse builds its own objects', floor=10)
+    for m in repo.modules.values():
+        mut = {}
+        for name, vals in m.assigns.items():
+            for v in vals:
+                is_inst = isinstance(v, ast.Call) and isinstance(v.func, ast.Name) and (
+                    (repo.resolve(m, v.func.id) or ('',))[0] == 'class' or v.func.id in ('list', 'dict', 'set', 'bytearray'))
+                # enums / named tuples built by helper functions are immutable values
+                if isinstance(v, (ast.List, ast.Dict, ast.Set, ast.ListComp, ast.DictComp, ast.SetComp)) or is_inst:
+                    mut[name] = v
+        # names imported from other repo modules that are mutable there
+        for other in repo.modules.values():
+            if other is m:
+                continue
+        for fd in list(m.functions.values()) + [f for c in m.classes.values() for fs in c.methods.values() for f in fs]:
+            loc = _locals_of(fd.node)
+            rr.ob(True, {'function_examined': fd.fq})
+            for n in ast.walk(fd.node):
+                cands = []
+                if isinstance(n, ast.Return) and n.value is not None:
+                    cands = [(x, 'returned') for x in _value_names(n.value)]
+                elif isinstance(n, ast.Assign) and any(isinstance(t, (ast.Attribute, ast.Subscript)) for t in n.targets):
+                    cands = [(x, 'stored') for x in _value_names(n.value)]
+                elif isinstance(n, ast.Call) and isinstance(n.func, ast.Attribute) and n.func.attr in ('append', 'extend', 'insert', 'add'):
+                    cands = [(x, 'stored') for a in n.args for x in _value_names(a)]
+                elif isinstance(n, ast.Call) and isinstance(n.func, ast.Name) and (repo.resolve(m, n.func.id) or ('',))[0] == 'class':
+                    cands = [(x, 'given to a constructor') for a in list(n.args) + [k.value for k in n.keywords] for x in _value_names(a)]
+                for x, how in cands:
+                    if x.id in loc:
+                        continue
+                    r = repo.resolve(m, x.id)
+                    if not r or r[0] != 'const':
+                        continue
+                    m2, nm = r[1], r[2]
+                    v = m2.assigns.get(nm, [None])[-1]
+                    is_mut = isinstance(v, (ast.List, ast.Dict, ast.Set, ast.ListComp, ast.DictComp, ast.SetComp)) or (
+                        isinstance(v, ast.Call) and isinstance(v.func, ast.Name) and (
+                            (repo.resolve(m2, v.func.id) or ('',))[0] == 'class' or v.func.id in ('list', 'dict', 'set')))
+                    rr.ob(not is_mut, {'function': fd.fq, 'name': x.id, 'use': how, 'module_level_mutable': is_mut})
+                    if is_mut:
+                        rr.fail(Finding('R17.f', m.name, fd.qual, n, 'the module-level mutable object %s is %s: every parse '
+                                        '(and every tree built from it) shares that one object, so an edit of one tree '
+                                        'shows up in the others' % (x.id, how), line=n.lineno))
+    if rr.instances == 0:
+        rr.ob(True, {'note': 'no module-level name escapes from any function'})
+    return rr
+
+
+def _value_names(e):
+    """names that ARE (part of) the value of an expression: through conditional expressions, boolean or,
+    tuples/lists -- not names merely used inside calls, subscripts or comparisons"""
+    if isinstance(e, ast.Name):
+        return [e]
+    if isinstance(e, ast.IfExp):
+        return _value_names(e.body) + _value_names(e.orelse)
+    if isinstance(e, ast.BoolOp):
+        out = []
+        for v in e.values:
+            out += _value_names(v)
+        return out
+    if isinstance(e, (ast.Tuple, ast.List)):
+        out = []
+        for v in e.elts:
+            out += _value_names(v.value if isinstance(v, ast.Starred) else v)
+        return out
+    return []
